@@ -8,7 +8,7 @@ from .pat import has, find, first, name_of
 from .rules_t import kwonly, str_elts
 from .rules_d import fixture_ctx
 from .norm import view, builders
-from .paths import decision_table, isinstance_atom, flatten_guard
+from .paths import decision_table, isinstance_atom, flatten_guard, cmp_atom
 from .pat import match, _parse
 
 
@@ -179,6 +179,38 @@ def k2(ctx, res):
               reason="every keyword whose value differs from the constructor default is read (equality, not truthiness)")
 
 
+@rule("K11", "the emitted `required` list demands exactly what the Required validator demands")
+def k11(ctx, res):
+    """Sibling cross-check: _PropertyDict.required (what validation demands) vs the list the JSON serializer emits."""
+    rq = ctx.cls("_PropertyDict").props["required"]["get"]
+    waives = False
+    for b in builders(view(rq, ctx.prog).body):
+        if has("self.items()", b.iter):
+            for t, pol in b.guards:
+                for t2, p2 in flatten_guard(t, pol):
+                    a = np_atom(t2, p2)
+                    if a and a[0].endswith(".element.default") and a[1]:
+                        waives = True
+    ser = view(ctx.func("_serialize_element"), ctx.prog, keep=("schema",))
+    verdict = None
+    found = []
+    for b in builders(ser.body):
+        it = norm(b.iter)
+        if not (it.endswith(".items()") and "properties" in it and isinstance(b.target, ast.Tuple) and len(b.target.elts) == 2):
+            continue
+        if b.kind in ("list", "gen", "set") and any(g.endswith(".required") for g in b.guard_texts()):
+            gts = b.guard_texts()
+            found.append(gts)
+            has_np = any((np_atom(t2, p2) or ("", None))[0].endswith(".element.default") and (np_atom(t2, p2) or (None, None))[1]
+                         for t, pol in b.guards for t2, p2 in flatten_guard(t, pol))
+            verdict = (has_np == waives)
+    res.judge(verdict, ser, "required: [prop.source or name for ... if prop.required]",
+              detail={"validator_waives_defaulted": waives, "serializer_filters": found},
+              reason="validation lets a required property with a default be omitted, but the serializer lists it in `required`: "
+                     "the emitted document rejects {} which the element tree accepts "
+                     "(class R(Object): a = Property(String(default='x'), required=True))")
+
+
 # ---------------------------------------------------------------------- K3
 LITERAL_NAMES = ("default", "const")
 
@@ -273,53 +305,61 @@ def k4(ctx, res):
     # S1: Properties.__call__ - everything merged into the iterated mapping is keyed like the input (JSON names)
     pc = ctx.func("Properties.__call__")
     v = pc.params[1].name
+    vpc = view(pc, ctx.prog, keep=(v,)).body
+    bpc = builders(vpc)
     n = 0
-    for node in walk_own(pc.body):
+    for node in walk_own(vpc):
         if isinstance(node, ast.Assign) and any(norm(t) == v for t in node.targets) and isinstance(node.value, ast.Dict):
             for k, val in zip(node.value.keys, node.value.values):
                 if k is None and norm(val) == v:
                     continue
                 inner = val if k is None else None
+                srcs = []
                 if isinstance(inner, ast.DictComp):
-                    n += 1
-                    kind = _key_kind(inner.key, set(), set())
-                    res.check(kind == "JS", pc, f"placeholder key {norm(inner.key)}", detail={"kind": kind},
-                              reason="placeholders for omitted properties are merged with the input (keyed by JSON names) and "
-                                     "looked up by JSON (source) name: they must be keyed by the property's source, or a "
-                                     "renamed property never receives its default")
+                    srcs = [b for b in bpc if b.node is inner]
+                elif isinstance(inner, ast.Name):
+                    srcs = [b for b in bpc if b.name == inner.id and b.kind == "dict"]
+                if srcs:
+                    for b in srcs:
+                        n += 1
+                        kind = _key_kind(b.key, set(), set())
+                        res.check(kind == "JS", pc, f"placeholder key {norm(b.key)}", detail={"kind": kind},
+                                  reason="placeholders for omitted properties are merged with the input (keyed by JSON names) and "
+                                         "looked up by JSON (source) name: they must be keyed by the property's source, or a "
+                                         "renamed property never receives its default")
                 elif k is not None or inner is not None:
                     n += 1
-                    res.violation(pc, node, reason="unrecognised member merged into the value mapping")
+                    res.unrecognised(pc, node, reason="a member of unknown key kind is merged into the value mapping")
         elif isinstance(node, ast.Call) and isinstance(node.func, ast.Attribute) and norm(node.func.value) == v \
                 and node.func.attr in ("setdefault", "update", "__setitem__"):
             n += 1
     res.floor("placeholder_merges", n, 1)
     # S2: serializer - "properties" is emitted under JSON names
-    ser = ctx.func("_serialize_element")
-    rekeyed = False
-    for node, b in find("schema['properties'] = {MV_k: MV_v for MV_n, MV_p in MV_src.items()}", ser):
-        kind = _key_kind(b["MV_k"], set(), {name_of(b["MV_n"])})
-        src_ok = norm(b["MV_src"]) in ("schema['properties']", "element.properties", "schema.get('properties', {})")
-        rekeyed = kind == "JS" and src_ok and norm(b["MV_v"]) == name_of(b["MV_p"])
-    res.check(rekeyed, ser, "schema['properties'] = {prop.source or name: prop for name, prop in schema['properties'].items()}",
+    ser = view(ctx.func("_serialize_element"), ctx.prog, keep=("schema",))
+    rekeyed = req_ok = None
+    for b in builders(ser.body):
+        it = norm(b.iter)
+        if not (it.endswith(".items()") and "properties" in it and isinstance(b.target, ast.Tuple) and len(b.target.elts) == 2):
+            continue
+        nm, pr = norm(b.target.elts[0]), norm(b.target.elts[1])
+        if b.kind == "dict" and norm(b.elt) == pr:
+            good = _key_kind(b.key, set(), {nm}) == "JS" and not b.guards
+            rekeyed = good if rekeyed is None else (rekeyed and good)
+        if b.kind in ("list", "gen", "set") and any(g.endswith(".required") for g in b.guard_texts()):
+            good = _key_kind(b.elt, set(), {nm}) == "JS"
+            req_ok = good if req_ok is None else (req_ok and good)
+    res.judge(rekeyed, ser, "schema['properties'] = {prop.source or name: prop for name, prop in schema['properties'].items()}",
               reason="the element's property mapping is keyed by Python attribute names; the emitted JSON Schema must be "
                      "keyed by the JSON (source) names")
-    req_ok = False
-    for node in walk_own(ser.body):
-        if isinstance(node, ast.ListComp) and len(node.generators) == 1:
-            g = node.generators[0]
-            if has("schema['properties'].items()", g.iter) and isinstance(g.target, ast.Tuple):
-                nm = norm(g.target.elts[0])
-                kind = _key_kind(node.elt, set(), {nm})
-                if any(norm(c).endswith(".required") for c in g.ifs):
-                    req_ok = kind == "JS"
-    res.check(req_ok, ser, "required members are prop.source or name", reason="`required` lists JSON names")
+    res.judge(req_ok, ser, "required members are prop.source or name", reason="`required` lists JSON names")
     # S3: object instances are populated under Python names
-    ok = False
-    for node in walk_own(pc.body):
-        if isinstance(node, ast.DictComp):
-            ok = has("self[MV_k].name or MV_k", node.key)
-    res.check(ok, pc, "result key: self[key].name or key", reason="declared members are exposed under their Python names")
+    ok = None
+    for b in bpc:
+        if b.kind == "dict" and norm(b.iter) == f"{v}.items()" and isinstance(b.target, ast.Tuple):
+            k = norm(b.target.elts[0])
+            good = norm(b.key) == f"self[{k}].name or {k}"
+            ok = good if ok is None else (ok and good)
+    res.judge(ok, pc, "result key: self[key].name or key", reason="declared members are exposed under their Python names")
     # S4: the parser records the JSON name on every property it creates
     n_prop_calls = 0
     for f in [g for g in ctx.prog.all_funcs() if g.module.name == "statham.schema.parser"]:
@@ -331,10 +371,21 @@ def k4(ctx, res):
     res.floor("parser_property_constructions", n_prop_calls, 2)
     # S5: dict keys the parser gives property mappings are mapped (Python) names
     pp = ctx.func("_parse_properties")
-    for node in walk_own(pp.body):
-        if isinstance(node, ast.DictComp):
-            res.check(_key_kind(node.key, set(), set()) == "PY", pp, f"key {norm(node.key)}",
+    n_pp = 0
+    vpp = view(pp, ctx.prog).body
+    for b in builders(vpp):
+        if b.kind == "dict" and b.key is not None:
+            n_pp += 1
+            kind = _key_kind(b.key, set(), set())
+            if kind == "?" and isinstance(b.key, ast.Name):
+                kinds = {_key_kind(st.value, set(), set()) for st in walk_own(vpp) if isinstance(st, (ast.Assign, ast.AnnAssign))
+                         and st.value is not None and any(isinstance(t, ast.Name) and t.id == b.key.id for t in
+                                                          (st.targets if isinstance(st, ast.Assign) else [st.target]))}
+                if len(kinds) == 1:
+                    kind = kinds.pop()
+            res.judge(True if kind == "PY" else (False if kind == "JS" else None), pp, f"key {norm(b.key)}",
                       reason="property mappings are keyed by the mapped Python attribute name")
+    res.floor("property_mapping_builders", n_pp, 1)
 
 
 # ---------------------------------------------------------------------- K5
@@ -608,6 +659,14 @@ def k6(ctx, res):
     v = rb.params[0].name
     rec_list = has(f"[replace_bool(MV_i) for MV_i in {v}]", rb) or has(f"list(map(replace_bool, {v}))", rb)
     rec_dict = has(f"{{MV_k: replace_bool(MV_x) for MV_k, MV_x in {v}.items()}}", rb)
+    for b_ in builders(view(rb, ctx.prog).body):
+        if b_.guards:
+            continue
+        if b_.kind == "list" and norm(b_.iter) == v and norm(b_.elt) == f"replace_bool({norm(b_.target)})":
+            rec_list = True
+        if b_.kind == "dict" and norm(b_.iter) == f"{v}.items()" and isinstance(b_.target, ast.Tuple) and len(b_.target.elts) == 2 \
+                and norm(b_.key) == norm(b_.target.elts[0]) and norm(b_.elt) == f"replace_bool({norm(b_.target.elts[1])})":
+            rec_dict = True
     res.check(rec_list and rec_dict, rb, "replace_bool recurses into lists and dicts",
               reason="nested true/false must be distinguished from 1/0 as well: [true] is not equal to [1] in JSON")
 
@@ -719,6 +778,29 @@ def k8(ctx, res):
                 continue
             e = node.value
             n += 1
+            if isinstance(e, ast.IfExp):
+                # `return a if c else b`: both alternatives are returns of their own
+                alts = [e.body, e.orelse]
+                okalts = True
+                for alt in alts:
+                    base = alt
+                    while isinstance(base, ast.Subscript):
+                        base = base.value
+                    if isinstance(base, ast.Name) and base.id in params:
+                        continue
+                    if isinstance(alt, ast.Call):
+                        cs = [s_.callee for s_ in inf.sites(f)[0] if s_.node is alt and s_.kind == "call"]
+                        if cs and all((c.module is parser and (c.name.startswith("_parse") or c.name in (
+                                "parse_element", "_compose_elements", "dedupe"))) or c.short == "reraise._decorator._wrapper" for c in cs):
+                            continue
+                    v_alt = ef.val(alt, f)
+                    sh = {a for a in v_alt.own if a != effects.F}
+                    if sh and not all(isinstance(a, tuple) and a[1].params[a[2]].name in ("schema", "literal", "elements", "type_list")
+                                      for a in sh):
+                        okalts = False
+                if okalts:
+                    res.ok(f, node, reason="each alternative delegates, hands back its argument, or is fresh")
+                    continue
             # delegation to another parser function
             if isinstance(e, ast.Call):
                 callees = [s.callee for s in inf.sites(f)[0] if s.node is e and s.kind == "call"]
@@ -770,6 +852,27 @@ def k9(ctx, res):
         verdict = all(norm(n.value) == "cls.__doc__" for n in stores)
     res.judge(verdict, isc, "cls.description = cls.__doc__",
               reason="the description read back from a generated class is the docstring itself, not a cleaned / re-indented copy")
+    # the store happens whenever a docstring exists: an existence test, not a truthiness test ('' is a description too)
+    P = Parents(isc)
+    gverdict = None
+    for n in stores:
+        gs = flat_guards(P, n)
+        on_doc = [(t, pol) for t, pol in gs if "__doc__" in norm(t)]
+        if not on_doc:
+            gverdict = True if gverdict is None else gverdict
+            continue
+        for t, pol in on_doc:
+            c = cmp_atom(t, pol)
+            if c and c[0] == "cls.__doc__" and c[2] == "None" and c[1] in ("is not", "!="):
+                gverdict = True if gverdict is None else gverdict
+            elif norm(strip_not(t, pol)[0]) == "cls.__doc__" and strip_not(t, pol)[1]:
+                gverdict = False   # `if cls.__doc__` : the empty description is dropped
+            else:
+                gverdict = None if gverdict is not False else False
+    res.judge(gverdict, isc, "if cls.__doc__ is not None: cls.description = cls.__doc__",
+              reason="the generated class carries the description only as its docstring; an EMPTY description is emitted as an "
+                     "empty docstring, which a truthiness test refuses to read back (description '' becomes not-passed: the "
+                     "executed class differs from the parsed one)")
     py = ctx.func("ObjectMeta.python")
     uses = [n for n in walk_own(py.body) if isinstance(n, ast.FormattedValue) and "description" in norm(n.value)]
     ok = None
